@@ -47,6 +47,7 @@ func runC01(c *Ctx) {
 	c01R7(c)
 	c01R8(c)
 	c08R12As(c, c.R.Rule("R10", "K9 (= C08.R12) the original of a split record is acked only when all its pieces are: the split ledger's member count starts at 1 and grows by len(recs)-1 per split, in SplitRecord only (never recounted from a sub-batch's local view)", 2))
+	c08R15As(c, c.R.Rule("R11", "K3 (= C08.R15) no ack for a record the destination rejected: nacking a piece of a split run never re-activates a filtered sibling, so a rejection in a later ack response is not attributed to another record while the rejected one keeps its default Ack flag", 1))
 	c05SharedDest(c, c.R.Rule("R9", "K4/K3 (= C05.R4) v2 shared destination: a worker enters a shared subtree only under sharedMu and re-checks the poison flag after acquiring it, so it never reads a failed pass's leftover destination replies as its own confirmation", 6))
 }
 
